@@ -258,6 +258,36 @@ func Dir(base, name string) string {
 	return d
 }
 
+// PlantKey is the key of the entry PlantTimestamp writes; no generator produces it.
+const PlantKey = "~~planted-by-the-harness~~"
+
+// TsBases are the commit-timestamp bases a fresh directory can be given: a store that has already
+// seen that many commits (the counter is about to cross 2^16, 2^31, 2^32, 2^53 or sits at 2^62).
+var TsBases = []uint64{1<<32 - 3, 1<<31 - 3, 1<<16 - 3, 1<<53 - 2, 1 << 62}
+
+// PlantTimestamp gives a directory that does not exist yet a history: one L0 table, written by the
+// engine's own flush code, holding one entry at version base. The first Open continues at base+1.
+func PlantTimestamp(dir string, cfg originium.Config, base uint64) {
+	if err := os.MkdirAll(dir, 0755); err != nil {
+		panic(err)
+	}
+	l0, ratio, blk := cfg.L0TargetNum, cfg.LevelRatio, cfg.DataBlockByteThreshold
+	if l0 <= 0 {
+		l0 = originium.DefaultConfig.L0TargetNum
+	}
+	if ratio <= 0 {
+		ratio = originium.DefaultConfig.LevelRatio
+	}
+	if blk <= 0 {
+		blk = originium.DefaultConfig.DataBlockByteThreshold
+	}
+	lv := originium.VerifNewLevels(dir, l0, ratio, blk)
+	defer lv.Close()
+	if err := lv.Flush([]types.Entry{{Key: types.KeyWithTs(PlantKey, base), Value: []byte("planted"), Version: int64(base)}}); err != nil {
+		panic(fmt.Sprintf("PlantTimestamp: %v", err))
+	}
+}
+
 func Open(dir string, cfg originium.Config) *originium.DB {
 	db, err := originium.Open(dir, cfg)
 	if err != nil {
